@@ -2,9 +2,15 @@
 //!   aggcheck check <ID> <quick|thorough>
 //!   aggcheck replay <path>
 
+mod bigalloc;
 mod c03;
 mod c04;
 mod c07;
+mod common;
+mod refagg;
+
+#[global_allocator]
+static ALLOC: bigalloc::ArenaCache = bigalloc::ArenaCache;
 
 fn usage() -> ! {
     eprintln!("usage: aggcheck check <C03|C04|C07> <quick|thorough> | aggcheck replay <path>");
@@ -61,6 +67,27 @@ fn main() {
             }
         },
         "replay" if args.len() >= 3 => replay(&args[2]),
+        // worker subprocess of C04: configuration from the environment
+        "c04-worker" if args.len() >= 3 => {
+            let only = args.get(3).map(|l| l.split(',').filter_map(|x| x.parse().ok()).collect::<Vec<usize>>());
+            c04::worker(&args[2], only)
+        }
+        // aggcheck sql [--off] <stmt>... : run statements (SELECTs with the columnar gate forced off after --off)
+        "sql" => {
+            let mut db = vibesql_storage::Database::new();
+            let mut off = false;
+            for s in &args[2..] {
+                if s == "--off" {
+                    off = true;
+                    continue;
+                }
+                vibesql_types::verif::set_columnar_off(off);
+                let o = vcore::exec::exec(&mut db, s);
+                vibesql_types::verif::set_columnar_off(false);
+                println!("{}\n   => {}", s, o.brief());
+            }
+            0
+        }
         _ => usage(),
     };
     std::process::exit(code);
